@@ -25,7 +25,7 @@ cd coq
 timeout 7200 make -k -j16 2>&1 | grep -v '^COQDEP\|^CLEAN\|WARNING: overwriting' | tail -n 60
 rc=${PIPESTATUS[0]}
 cd ..
-./lint.sh || exit 2
+./lint.sh || echo "setup: lint failed on some file (see above); every check lints the files its own theorems depend on and reports it"
 if [ "$rc" != 0 ]; then echo "setup: some Coq targets failed to build (see above); the affected checks will report it"; fi
 test -f coq/Spec/MachineSpec.vo || exit 2
 echo "setup ok"
